@@ -26,14 +26,42 @@
    (then the first slot of the new epoch resolves).  NextResolve = "ascoded" is that; "either" lets the block run or
    not after any loop iteration and after the loop (the property does not care).
    TickMode = "ascoded": the ticker emits as newSlotTicker does; "either": any slot may be handed to Tick (used by
-   trace validation, where the invariants TickOrder / TickNotEarly / TickFresh judge it). *)
+   trace validation, where the invariants TickOrder / TickNotEarly / TickFresh judge it).
+
+   Alpha features fetch_att_on_block / fetch_att_on_block_with_delay (variable `feat`: "off" | "on" | "delay"; both
+   flags together behave as "delay") and the SSE head event (environment move HeadEvent), as coded:
+     * scheduleSlot: with a flag on, the goroutine of the slot's ATTESTER duty does not call delayFunc; it runs
+       waitForEarlyFetchOrTimeout: it sleeps on the scheduler's clock until slot start + 1/3 slot (+ 300 ms = Extra
+       with the _with_delay flag) -- at once if that instant has passed --, then stores the slot in
+       eventTriggeredAttestations (`marked`) and calls the duty subscribers.  Nothing else is read: a head event never
+       moves the instant at which the duty reaches the subscribers.  All other duty types are untouched.
+     * HandleHeadEvent(slot): nothing unless FetchOnly is registered and a flag is on; nothing unless the slot has an
+       attester definition set at that moment (resolved, not trimmed); LoadOrStore(slot) in `marked`: nothing if it
+       was there already (an earlier head event for the slot, or the duty's wait is over); otherwise ONE call of the
+       fetcher's FetchOnly with a clone of the definition set (`fetched`) -- the early FETCH, which is not a duty
+       trigger and never reaches the duty subscribers.  This holds whenever the event arrives: before the slot's
+       tick (the fetch then happens before the slot starts; the duty still waits for its deadline), between slot
+       start and the deadline, after it (no fetch: the slot is marked), twice (second: nothing), for another slot
+       (that slot's business only), for a slot without attester duty (nothing).
+     * trimDuties(epoch) also drops the marks of all slots before the end of that epoch.
+   Documented contract taken as the earliest legal instant (featureset.go: "Falls back to T=1/3 if no head event is
+   received in time", "uses T=1/3+300ms as fallback timeout"; scheduler.go, waitForEarlyFetchOrTimeout: "waits until the
+   fallback timeout is reached.  The head-event-triggered early fetch (HandleHeadEvent) runs concurrently and
+   populates the attestation data cache before this deadline in the happy path.  If FetchAttOnBlockWithDelay is
+   enabled, timeout is T=1/3+300ms, otherwise T=1/3."; HandleHeadEvent: "Fetch attestation data early without
+   triggering consensus"): with a flag on the attester duty reaches the subscribers not before slot start + 1/3 slot
+   (+ Extra), judged on the clock at the call (NotEarly, record field `at`); exactly once (AtMostOnce, Complete).
+   Whether / when the early fetch happens is not part of C15: FetchOnce / FetchNotAfterTrigger are sanity
+   invariants of this transcription only (design check), trace validation leaves the fetch free. *)
 EXTENDS Integers, Sequences, FiniteSets, TLC
 CONSTANTS SlotDur,       \* clock units per slot
+          Extra,         \* the 300 ms of fetch_att_on_block_with_delay in clock units
           NextResolve, TickMode,
           Variant        \* "code": the transcription; anything else: a seeded defect for the control configurations
                          \* ("nofilter" inactive validators kept, "foreign" unknown validators kept, "early" attester
                          \* offset dropped, "strictskip" duties of the first resolved slot dropped, "dupfire" subscribers
-                         \* called twice, "retick" the ticker emits a slot again)
+                         \* called twice, "retick" the ticker emits a slot again, "headfire" with a feature flag on the
+                         \* attester duty does not wait when the slot's head event was handled before its goroutine started)
 None == -1               \* resolvedEpoch = math.MaxInt64
 Types == <<"pro", "att", "agg", "sync">>      \* core.AllDutyTypes() order, restricted to the types the scheduler defines
 HasOffset(ty) == ty \in {"att", "agg", "sync"}                      \* slotOffsets
@@ -48,9 +76,16 @@ VARIABLES truth, now,
           triggered,      \* history: duty subscriber calls [slot, type, defs, dl]
           sched,          \* history: scheduleSlot calls [slot, covered]
           resolvedAt,     \* history: epoch -> time of its first complete resolution
-          elig, eligAll   \* history: epoch -> validators active/activating in some / every validators answer used for it
+          elig, eligAll,  \* history: epoch -> validators active/activating in some / every validators answer used for it
+          feat,           \* "off" | "on" (fetch_att_on_block) | "delay" (fetch_att_on_block_with_delay, alone or with the other)
+          marked,         \* eventTriggeredAttestations: set of slots
+          fetched         \* history: FetchOnly calls [slot, defs, at]
+fvars == <<feat, marked, fetched>>
 vars == <<truth, now, tnext, pc, slot, i, res, resolvedEpoch, duties, byEpoch, gor, gid, triggered, sched, resolvedAt,
-          elig, eligAll>>
+          elig, eligAll, fvars>>
+FeatOn == feat # "off"
+\* waitForEarlyFetchOrTimeout: fallbackDeadline
+WaitDeadline(n) == n * SlotDur + (SlotDur \div 3) + (IF feat = "delay" THEN Extra ELSE 0)
 
 S == truth.S
 Epoch(n) == n \div S
@@ -107,6 +142,7 @@ Init0 == /\ tnext = CurSlot(now)
          /\ resolvedEpoch = None /\ duties = Empty /\ byEpoch = {}
          /\ gor = {} /\ gid = 0
          /\ triggered = <<>> /\ sched = <<>> /\ resolvedAt = Empty /\ elig = Empty /\ eligAll = Empty
+         /\ marked = {} /\ fetched = <<>>
 
 \* ------------------------------------------------------------------------------------------------
 \* newSlotTicker: waits for the start of `tnext`; "if clock.Now().After(slot.Next().Time) { slot = currentSlot() }"
@@ -119,14 +155,14 @@ Tick(n) ==                \* the run loop receives the slot from the ticker; emi
   /\ tnext' = (IF Variant = "retick" THEN n ELSE n + 1) /\ slot' = n /\ pc' = "sched"
   /\ gor' = gor \cup {[id |-> gid, kind |-> "slotsub", slot |-> n, type |-> "-", defs |-> Empty, stage |-> "fire", dl |-> None]}
   /\ gid' = gid + 1
-  /\ UNCHANGED <<truth, now, i, res, resolvedEpoch, duties, byEpoch, triggered, sched, resolvedAt, elig, eligAll>>
+  /\ UNCHANGED <<truth, now, i, res, resolvedEpoch, duties, byEpoch, triggered, sched, resolvedAt, elig, eligAll, fvars>>
 SchedSlot ==              \* scheduleSlot starts (schedSlotFunc): "if s.getResolvedEpoch() != slot.Epoch()" resolve first
   /\ pc = "sched"
   /\ sched' = Append(sched, [slot |-> slot, covered |-> Covered(slot)])
   /\ IF resolvedEpoch # Epoch(slot)
        THEN pc' = "cur" /\ i' = 0 /\ res' = [ep |-> Epoch(slot), from |-> slot, stage |-> "vals", vs |-> {}]
        ELSE pc' = "loop" /\ i' = 1 /\ res' = NoRes
-  /\ UNCHANGED <<truth, now, tnext, slot, resolvedEpoch, duties, byEpoch, gor, gid, triggered, resolvedAt, elig, eligAll>>
+  /\ UNCHANGED <<truth, now, tnext, slot, resolvedEpoch, duties, byEpoch, gor, gid, triggered, resolvedAt, elig, eligAll, fvars>>
 
 \* the resolve attempt is over (error, or done): back to scheduleSlot
 EndAttempt == /\ res' = NoRes
@@ -140,7 +176,7 @@ NoteElig(ep, vs) == /\ elig' = IF ep \in DOMAIN elig THEN [elig EXCEPT ![ep] = @
 \* resolveDuties: resolveActiveValidators
 CallVals(ok, resp) ==
   /\ pc \in {"cur", "nxt"} /\ res.stage = "vals"
-  /\ UNCHANGED <<truth, now, tnext, slot, duties, byEpoch, gor, gid, triggered, sched>>
+  /\ UNCHANGED <<truth, now, tnext, slot, duties, byEpoch, gor, gid, triggered, sched, fvars>>
   /\ IF ~ok THEN EndAttempt /\ UNCHANGED <<resolvedEpoch, resolvedAt, elig, eligAll>>
      ELSE LET vs == Eligible(resp, res.ep) IN
           /\ NoteElig(res.ep, ActiveFor(resp, res.ep))
@@ -152,19 +188,21 @@ NextStage(k) == CASE k = "att" -> "pro" [] k = "pro" -> "sync" [] OTHER -> "done
 \* resolveAttDuties / resolveProDuties / resolveSyncCommDuties (+ the tail of resolveDuties after the last one)
 CallDuties(kind, ok, resp) ==
   /\ pc \in {"cur", "nxt"} /\ res.stage = kind /\ kind \in {"att", "pro", "sync"}
-  /\ UNCHANGED <<truth, now, tnext, slot, gor, gid, triggered, sched, elig, eligAll>>
-  /\ IF ~ok THEN EndAttempt /\ UNCHANGED <<resolvedEpoch, resolvedAt, duties, byEpoch>>
+  /\ UNCHANGED <<truth, now, tnext, slot, gor, gid, triggered, sched, elig, eligAll, feat, fetched>>
+  /\ IF ~ok THEN EndAttempt /\ UNCHANGED <<resolvedEpoch, resolvedAt, duties, byEpoch, marked>>
      ELSE LET E == Entries(kind, resp, res.from, res.ep, res.vs)
               D1 == StoreAll(duties, E)
               B1 == byEpoch \cup {<<res.ep, k>> : k \in Touched(duties, E)}
           IN IF kind # "sync"
                THEN /\ duties' = D1 /\ byEpoch' = B1
                     /\ res' = [res EXCEPT !.stage = NextStage(kind)]
-                    /\ UNCHANGED <<pc, i, resolvedEpoch, resolvedAt>>
+                    /\ UNCHANGED <<pc, i, resolvedEpoch, resolvedAt, marked>>
                ELSE /\ MarkResolved(res.ep)                               \* setResolvedEpoch; trimDuties(epoch - 3)
                     /\ LET tk == IF res.ep >= 3 THEN TrimKeys(B1, res.ep - 3) ELSE {} IN
                        /\ duties' = [k \in DOMAIN D1 \ tk |-> D1[k]]
                        /\ byEpoch' = IF res.ep >= 3 THEN {p \in B1 : p[1] # res.ep - 3} ELSE B1
+                       \* trimEventTriggeredAttestations(epoch): only when the epoch had duties to trim and a flag is on
+                       /\ marked' = IF tk # {} /\ FeatOn THEN {n \in marked : n >= (res.ep - 3 + 1) * S} ELSE marked
                     /\ EndAttempt
 
 \* one iteration of "for _, dutyType := range core.AllDutyTypes()" (only iterations that can have a definition)
@@ -172,12 +210,17 @@ StartNext == /\ pc' = "nxt" /\ res' = [ep |-> Epoch(slot) + 1, from |-> slot + 1
 Continue == IF i >= 5 THEN pc' = "idle" /\ i' = 0 /\ res' = NoRes ELSE pc' = "loop" /\ i' = i + 1 /\ res' = NoRes
 LoopStep ==
   /\ pc = "loop"
-  /\ UNCHANGED <<truth, now, tnext, slot, resolvedEpoch, duties, byEpoch, triggered, sched, resolvedAt, elig, eligAll>>
+  /\ UNCHANGED <<truth, now, tnext, slot, resolvedEpoch, duties, byEpoch, triggered, sched, resolvedAt, elig, eligAll, fvars>>
   /\ LET present == i <= 4 /\ <<slot, Types[i]>> \in DOMAIN duties IN
      /\ IF present
-          THEN /\ gor' = gor \cup {[id |-> gid, kind |-> "duty", slot |-> slot, type |-> Types[i],
-                                    defs |-> duties[<<slot, Types[i]>>],
-                                    stage |-> IF HasOffset(Types[i]) THEN "delay" ELSE "fire", dl |-> None]}
+          THEN /\ gor' = gor \cup {IF Types[i] = "att" /\ FeatOn
+                                     THEN \* waitForEarlyFetchOrTimeout instead of delaySlotOffset
+                                          [id |-> gid, kind |-> "duty", slot |-> slot, type |-> "att",
+                                           defs |-> duties[<<slot, "att">>], stage |-> "wait",
+                                           dl |-> IF Variant = "headfire" /\ slot \in marked THEN 0 ELSE WaitDeadline(slot)]
+                                     ELSE [id |-> gid, kind |-> "duty", slot |-> slot, type |-> Types[i],
+                                           defs |-> duties[<<slot, Types[i]>>],
+                                           stage |-> IF HasOffset(Types[i]) THEN "delay" ELSE "fire", dl |-> None]}
                /\ gid' = gid + 1
           ELSE UNCHANGED <<gor, gid>>
      /\ IF ~LastInEpoch(slot) THEN Continue
@@ -187,25 +230,43 @@ LoopStep ==
 \* goroutines
 SlotSub(g) == /\ g \in gor /\ g.kind = "slotsub" /\ gor' = gor \ {g}
               /\ UNCHANGED <<truth, now, tnext, pc, slot, i, res, resolvedEpoch, duties, byEpoch, gid, triggered, sched,
-                             resolvedAt, elig, eligAll>>
+                             resolvedAt, elig, eligAll, fvars>>
 \* delaySlotOffset asks delayFunc to wait until dl (as coded: slot.Time + offset)
 CodedDeadline(g) == Start(g.slot) + (IF Variant = "early" /\ g.type = "att" THEN 0 ELSE Offset(g.type))
 Delay(g, dl) == /\ g \in gor /\ g.kind = "duty" /\ g.stage = "delay"
                 /\ gor' = (gor \ {g}) \cup {[g EXCEPT !.stage = "fire", !.dl = dl]}
                 /\ UNCHANGED <<truth, now, tnext, pc, slot, i, res, resolvedEpoch, duties, byEpoch, gid, triggered, sched,
-                               resolvedAt, elig, eligAll>>
-\* the duty subscribers are called with (a clone of) the definition set
-Fire(g, defs) == /\ g \in gor /\ g.kind = "duty" /\ g.stage = "fire"
+                               resolvedAt, elig, eligAll, fvars>>
+\* a goroutine in stage "wait" sleeps on the clock until its deadline (the guard is NOT part of Fire: trace validation
+\* takes the instant of the subscriber call from the trace and lets NotEarly judge it)
+Ready(g) == g.stage = "wait" => now >= g.dl
+ReadyGor == {g \in gor : Ready(g)}
+\* the duty subscribers are called with (a clone of) the definition set; after a wait the slot is marked first
+Fire(g, defs) == /\ g \in gor /\ g.kind = "duty" /\ g.stage \in {"fire", "wait"}
                  /\ gor' = gor \ {g}
-                 /\ LET rec == [slot |-> g.slot, type |-> g.type, defs |-> defs, dl |-> g.dl] IN
+                 /\ LET rec == [slot |-> g.slot, type |-> g.type, defs |-> defs, dl |-> g.dl, at |-> now,
+                                mode |-> IF g.stage = "wait" THEN "wait" ELSE "delay"] IN
                     triggered' = IF Variant = "dupfire" THEN triggered \o <<rec, rec>> ELSE Append(triggered, rec)
+                 /\ marked' = IF g.stage = "wait" THEN marked \cup {g.slot} ELSE marked
                  /\ UNCHANGED <<truth, now, tnext, pc, slot, i, res, resolvedEpoch, duties, byEpoch, gid, sched,
-                                resolvedAt, elig, eligAll>>
+                                resolvedAt, elig, eligAll, feat, fetched>>
 
-Quiescent == pc = "idle" /\ gor = {} /\ ~TickerDue
+\* HandleHeadEvent(n): environment move, at any moment (it only reads `duties` and LoadOrStores `marked`); `reg`: the
+\* fetcher's FetchOnly is registered.  The FetchOnly call (its own goroutine) is folded into the step.
+CanFetch(n) == FeatOn /\ <<n, "att">> \in DOMAIN duties /\ n \notin marked
+HeadEvent(n, reg) ==
+  /\ IF reg /\ CanFetch(n)
+       THEN /\ marked' = marked \cup {n}
+            /\ fetched' = Append(fetched, [slot |-> n, defs |-> duties[<<n, "att">>], at |-> now])
+       ELSE UNCHANGED <<marked, fetched>>
+  /\ UNCHANGED <<truth, now, tnext, pc, slot, i, res, resolvedEpoch, duties, byEpoch, gor, gid, triggered, sched,
+                 resolvedAt, elig, eligAll, feat>>
+
+\* every goroutine is blocked: the run loop on the ticker, the ticker and the waiting duty goroutines on the clock
+Quiescent == pc = "idle" /\ ReadyGor = {} /\ ~TickerDue
 Advance(to) == /\ Quiescent /\ to > now /\ now' = to
                /\ UNCHANGED <<truth, tnext, pc, slot, i, res, resolvedEpoch, duties, byEpoch, gor, gid, triggered, sched,
-                              resolvedAt, elig, eligAll>>
+                              resolvedAt, elig, eligAll, fvars>>
 
 \* ------------------------------------------------------------------------------------------------
 \* Properties (C15)
@@ -227,8 +288,11 @@ OnlyAssigned == \A a \in TIdx : LET t == triggered[a] IN
                        /\ v \in Ids /\ Val(v).known
                        /\ Epoch(t.slot) \in DOMAIN elig /\ v \in elig[Epoch(t.slot)]
                        /\ Assigned(t.type, t.slot, v, t.defs[v])
-\* never asked to wait for less than the duty type's offset into its slot
-NotEarly == \A a \in TIdx : HasOffset(triggered[a].type) => triggered[a].dl >= Start(triggered[a].slot) + Offset(triggered[a].type)
+\* never asked to wait for less than the duty type's offset into its slot; an attester duty that waited on the clock
+\* itself (feature flags): subscribers not called before slot start + 1/3 slot (+ Extra with the _with_delay flag)
+NotEarly == \A a \in TIdx : LET t == triggered[a] IN
+              HasOffset(t.type) => IF t.mode = "wait" THEN t.at >= WaitDeadline(t.slot)
+                                   ELSE t.dl >= Start(t.slot) + Offset(t.type)
 \* slots are scheduled in increasing order (never one twice)
 TickOrder == \A a, b \in DOMAIN sched : a < b => sched[a].slot < sched[b].slot
 \* a slot is not scheduled before it starts
@@ -249,8 +313,10 @@ Lower(n, ty) ==
 Complete == Quiescent =>
   \A a \in DOMAIN sched : sched[a].covered =>
      \A k \in 1..4 : LET lo == Lower(sched[a].slot, Types[k]) IN
-        lo # {} => \E b \in TIdx : /\ triggered[b].slot = sched[a].slot /\ triggered[b].type = Types[k]
-                                   /\ lo \subseteq Pairs(triggered[b].defs)
+        lo # {} => \/ \E b \in TIdx : /\ triggered[b].slot = sched[a].slot /\ triggered[b].type = Types[k]
+                                      /\ lo \subseteq Pairs(triggered[b].defs)
+                   \/ \E g \in gor \ ReadyGor :        \* still asleep until its deadline, holding these definitions
+                         g.kind = "duty" /\ g.slot = sched[a].slot /\ g.type = Types[k] /\ lo \subseteq Pairs(g.defs)
 \* sanity of the truth (the node assigns at most one attester slot per validator and epoch, one proposer per slot,
 \* one sync committee entry per validator and epoch; every assigned validator is listed)
 TruthSane == /\ \A d, e \in truth.att : (d.v = e.v /\ Epoch(d.slot) = Epoch(e.slot)) => d = e
@@ -259,5 +325,13 @@ TruthSane == /\ \A d, e \in truth.att : (d.v = e.v /\ Epoch(d.slot) = Epoch(e.sl
              /\ \A d \in truth.att \cup truth.pro \cup truth.sync : d.v \in Ids
              /\ \A r, q \in truth.vals : r.id = q.id => r = q
              /\ \A r \in truth.vals : r.act < r.exit
+\* sanity of the transcription of the early fetch (not part of C15): one FetchOnly per slot, with a flag on, for a
+\* slot with attester definitions, never after that slot's attester duty reached the subscribers
+FetchOnce == \A a, b \in DOMAIN fetched : a < b => fetched[a].slot # fetched[b].slot
+FetchNotAfterTrigger == \A a \in DOMAIN fetched : /\ FeatOn /\ fetched[a].defs # Empty
+                                                   /\ \A b \in TIdx : (triggered[b].type = "att" /\ triggered[b].slot = fetched[a].slot)
+                                                                         => fetched[a].at <= triggered[b].at
+\* head events and FetchOnly calls never reach the duty subscribers: with the flags off nothing is marked or fetched
+OffInert == feat = "off" => marked = {} /\ fetched = <<>>
 Safety == AtMostOnce /\ OnlyAssigned /\ NotEarly /\ TickOrder /\ TickNotEarly /\ Complete
 ====
